@@ -65,7 +65,7 @@ Section Scrub.
     : option sc_out :=
     let ds := map (sc_data c fs pos) (seq 0 (length (c_disks c))) in
     let buf := map (fun x => snd (fst x)) ds in
-    let ptasks := map (fun l => match nth pos (nth l par []) PNone with
+    let ptasks : list (ScrubModel.parity_task * list tag) := map (fun l => match nth pos (nth l par []) PNone with
                                 | PNone => ({| ScrubModel.pt_state := ScrubModel.TASK_ERROR_CONTINUE; ScrubModel.pt_equal := true |}, [(K_SC_PAR_READ, [N.of_nat pos; N.of_nat l])])
                                 | p => ({| ScrubModel.pt_state := ScrubModel.TASK_DONE; ScrubModel.pt_equal := par_matches buf p |}, [])
                                 end) (seq 0 nlev) in
